@@ -1,1 +1,2 @@
 use crate::num_bigint::ToBigInt;
+use crate::num_traits::FromPrimitive;
